@@ -29,7 +29,11 @@ func c19HarnessSrc() string {
 func c19Race(c *Ctx) {
 	src := c19HarnessSrc()
 	repo := c19Repo()
-	bdir := filepath.Join(c.Out, "racebuild")
+	outAbs, err := filepath.Abs(c.Out)
+	if err != nil {
+		outAbs = c.Out
+	}
+	bdir := filepath.Join(outAbs, "racebuild")
 	os.RemoveAll(bdir)
 	os.MkdirAll(filepath.Join(bdir, "hx"), 0755)
 	gm, err := os.ReadFile(filepath.Join(src, "go.mod"))
@@ -55,7 +59,7 @@ func c19Race(c *Ctx) {
 		os.WriteFile(filepath.Join(bdir, "hx", filepath.Base(f)), b, 0644)
 	}
 	exe := filepath.Join(bdir, "hx-race")
-	cmd := exec.Command("go", "build", "-race", "-tags", "verif", "-o", exe, "./hx")
+	cmd := exec.Command("go", "build", "-race", "-gcflags=all=-d=checkptr=0", "-tags", "verif", "-o", exe, "./hx") // checkptr (implied by -race) rejects the unaligned xor of the vendored sha3; not what is measured here
 	cmd.Dir = bdir
 	cmd.Env = append(os.Environ(), "GOFLAGS=-mod=mod", "GOPROXY=off", "GOSUMDB=off", "GOTOOLCHAIN=local", "CGO_ENABLED=1")
 	t0 := time.Now()
@@ -75,7 +79,7 @@ func c19Race(c *Ctx) {
 	if v := os.Getenv("VERIF_C19_RACE_ROUNDS"); v != "" {
 		fmt.Sscan(v, &rounds)
 	}
-	text, ran := c19RunHammer(c, exe, "race", rounds, 900*time.Second)
+	text, ran := c19RunHammer(c, exe, "c19-hammer", "race", rounds, 900*time.Second)
 	if !ran {
 		return
 	}
@@ -114,6 +118,7 @@ func c19ParseRaces(text, repo string) map[string]*c19RacePair {
 		lines := strings.Split(b, "\n")
 		var tops []string
 		var kinds []string
+		var vias []string
 		i := 0
 		for i < len(lines) && len(tops) < 2 {
 			l := lines[i]
@@ -128,6 +133,7 @@ func c19ParseRaces(text, repo string) map[string]*c19RacePair {
 			}
 			i++
 			top := ""
+			bottom := ""
 			for i+1 < len(lines) && strings.HasPrefix(lines[i], "  ") {
 				m := c19FrameRe.FindStringSubmatch(lines[i])
 				file := strings.TrimSpace(lines[i+1])
@@ -140,8 +146,16 @@ func c19ParseRaces(text, repo string) map[string]*c19RacePair {
 					fn = strings.NewReplacer("(*", "", ")", "").Replace(fn)
 					top = fn
 				}
+				if m != nil && (strings.HasPrefix(file, repo+"/") || strings.Contains(m[1], "LemoFoundationLtd/lemochain-core/")) {
+					fn := m[1]
+					if j := strings.LastIndex(fn, "/"); j >= 0 {
+						fn = fn[j+1:]
+					}
+					bottom = strings.NewReplacer("(*", "", ")", "").Replace(fn) // the outermost /repo frame = how this goroutine got there
+				}
 				i += 2
 			}
+			vias = append(vias, bottom)
 			if top == "" {
 				top = "<outside-repo>"
 			}
@@ -166,6 +180,10 @@ func c19ParseRaces(text, repo string) map[string]*c19RacePair {
 			out[key] = p
 		}
 		p.n++
+		via := vias[0] + " / " + vias[1]
+		if !strings.Contains(p.example, via) && strings.Count(p.example, "; via ") < 4 {
+			p.example += "; via " + via
+		}
 	}
 	return out
 }
